@@ -1,4 +1,5 @@
 import Pog.Lemmas.GenCode
+import Pog.Props.Loader
 import Pog.Lemmas.SanIdem
 /-
   C04 — request fidelity of an emitted endpoint method.
@@ -28,6 +29,12 @@ import Pog.Lemmas.SanIdem
                                                                                               `multi_content_undeclared_path_var_counterexample`
     a declared parameter named `body` and the JSON body are distinct                ✗         `body_name_collision_counterexample`
 -/
+/-
+  C04 at the loader (Pog/Model/Loader.lean; claimed from Pog/Props/Loader.lean):
+    parameters_order_and_count             the parameters of an operation are the path-level ones (in order) followed by the operation-level
+                                           ones (in order), one per node, each parsed with THIS operation's id; no merge (`parameters_not_merged`)
+-/
+-- INDEX Pog.LoaderProps: parameters_order_and_count, parameters_carry_operation_id, parameters_not_merged
 namespace Pog.C04
 open Pog Pog.GenCode
 
@@ -46,7 +53,7 @@ structure StdCall (op : Op) (args : GArgs) : Prop where
   headerStr : ∀ p ∈ op.params, p.loc = .header →
     (argVal args p.ident).isStr = true ∨ (p.required = false ∧ argVal args p.ident = .none)
   /-- not the `multipart/form-data; boundary=…` media-type key that makes the method read an unbound name -/
-  bodyKnown : ∀ b mt, op.body = some b → primaryBody b.media = some (mt, .bytes) → isInfix mtMultipart mt = false
+  bodyKnown : ∀ b mt, op.body = some b → primaryBody b.media = some (mt, .bytes) → GenCode.isInfix mtMultipart mt = false
 
 /-- `no cookie parameter` (nor one with an unknown `in`) and every declared path parameter occurs in the template. -/
 structure AllSendable (op : Op) : Prop where
